@@ -63,7 +63,7 @@ type Config struct {
 	APISize       int
 	StoreReset    bool
 	NoBackground  bool
-	Image         []byte // database image to start from (in-memory databases only)
+	Image         *Image // database image to start from (in-memory databases only)
 }
 
 func DefaultConfig() Config {
@@ -278,6 +278,16 @@ func taskAll(s *t_aio.SenderSubmission) any {
 	return []any{t.State, t.RootPromiseId, string(t.Recv), t.Mesg, t.Attempt, t.Ttl, t.ExpiresAt}
 }
 
+func firstLineOf(s string) string {
+	if i := strings.IndexByte(s, '\n'); i >= 0 {
+		s = s[:i]
+	}
+	if len(s) > 100 {
+		s = s[:100]
+	}
+	return s
+}
+
 func short(s string) string {
 	h := sha256.Sum256([]byte(s))
 	return hex.EncodeToString(h[:8])
@@ -376,28 +386,85 @@ func (w *World) Snapshot() []byte {
 	return out
 }
 
-func restore(db *sql.DB, img []byte) {
+// Image is a database snapshot. It is kept deserialized in a private source
+// connection and copied into a world's connection with SQLite's backup API, so
+// that the restored database is an ordinary growable in-memory database
+// (sqlite3_deserialize alone yields a fixed-size one that fails with SQLITE_FULL
+// as soon as it needs another page).
+type Image struct {
+	Bytes []byte
+	src   *sql.DB
+}
+
+func (im *Image) source() *sql.DB {
+	if im.src != nil {
+		return im.src
+	}
+	db, err := sql.Open("sqlite3", ":memory:")
+	if err != nil {
+		panic(err)
+	}
+	db.SetMaxOpenConns(1)
 	conn, err := db.Conn(context.Background())
 	if err != nil {
 		panic(err)
 	}
-	defer conn.Close()
-	err = conn.Raw(func(dc any) error { return dc.(*sqlite3.SQLiteConn).Deserialize(img, "main") })
+	err = conn.Raw(func(dc any) error { return dc.(*sqlite3.SQLiteConn).Deserialize(im.Bytes, "main") })
+	conn.Close()
 	if err != nil {
 		panic(fmt.Sprintf("verif: deserialize: %v", err))
+	}
+	im.src = db
+	return db
+}
+
+func (im *Image) Close() {
+	if im.src != nil {
+		_ = im.src.Close()
+		im.src = nil
+	}
+}
+
+func restore(db *sql.DB, im *Image) {
+	ctx := context.Background()
+	sc, err := im.source().Conn(ctx)
+	if err != nil {
+		panic(err)
+	}
+	defer sc.Close()
+	dcn, err := db.Conn(ctx)
+	if err != nil {
+		panic(err)
+	}
+	defer dcn.Close()
+	err = sc.Raw(func(srcRaw any) error {
+		return dcn.Raw(func(dstRaw any) error {
+			b, err := dstRaw.(*sqlite3.SQLiteConn).Backup("main", srcRaw.(*sqlite3.SQLiteConn), "main")
+			if err != nil {
+				return err
+			}
+			if _, err := b.Step(-1); err != nil {
+				_ = b.Finish()
+				return err
+			}
+			return b.Finish()
+		})
+	})
+	if err != nil {
+		panic(fmt.Sprintf("verif: restore: %v", err))
 	}
 }
 
 // Restore replaces the database content with a snapshot (used to skip the
 // deterministic setup prefix of a scenario).
-func (w *World) Restore(img []byte, clock int64) {
+func (w *World) Restore(img *Image, clock int64) {
 	restore(w.db, img)
 	w.Clock = clock
 	w.last = nil
 	w.lastChanges = -1
 }
 
-func (w *World) boot(img []byte) {
+func (w *World) boot(img *Image) {
 	w.Gen++
 	reg := prometheus.NewRegistry()
 	w.metrics = metrics.New(reg)
@@ -713,6 +780,11 @@ func (w *World) ExecBatch(idxs []int, o Outcome) {
 			ev.Err = c.Error
 		}
 	}
+	if ev.Err != nil {
+		// the explorer injects failures by replacing completions, never by making SQL
+		// fail: an error out of the store itself is never silently explored past
+		w.Violate("store-error:"+firstLineOf(ev.Err.Error()), "the store failed a transaction on its own (%v): %v", labels, ev.Err)
+	}
 	if ev.Err == nil {
 		for _, c := range cqes {
 			ev.Results = append(ev.Results, c.Completion.Store.Results)
@@ -784,9 +856,10 @@ func (w *World) Crash() {
 		w.gates[k] = false
 	}
 	w.hist = map[string][]string{}
-	var img []byte
+	var img *Image
 	if w.Cfg.DBFile == "" {
-		img = w.Snapshot()
+		img = &Image{Bytes: w.Snapshot()}
+		defer img.Close()
 	}
 	oldDB, oldStmts := w.db, w.dumpStmts
 	w.boot(img)
